@@ -231,16 +231,24 @@ Lemma ffi_kk_eq :
 Proof. vm_compute. reflexivity. Qed.
 Lemma ffi_ckk_eq : ffi_ckk = mk_centry true [] false DimNone COk None by_tag "CompleteKarmarkarKarp" 1 [(0, PSame)].
 Proof. vm_compute. reflexivity. Qed.
-Definition geo_entry (alg : string) : centry :=
-  mk_centry true [(PLenPointsWeights, CLenMismatch)] true (DimDispatch [2; 3]%N CBadDimension) COk None by_tag alg 2
-            [(0, PSame); (1, PSame)].
-Lemma ffi_rcb_eq : ffi_rcb = geo_entry "Rcb".
+(* Does the entry point answer BAD_TYPE for points announced with another Type tag than double?  Not at
+   present (finding candidate ffi-points-type-unchecked, docs/C17.md); the statements below are written for
+   both shapes of the glue, with the check right after the length check, and [checks_points] is computed
+   from the generated table. *)
+Definition checks_points (e : centry) : bool :=
+  existsb (fun x => match fst x with PPointsDouble => true | _ => false end) (ce_pre e).
+Definition points_pre (chk : bool) : list (precheck * code) := if chk then [(PPointsDouble, CBadType)] else [].
+Definition geo_entry (chk : bool) (alg : string) : centry :=
+  mk_centry true ((PLenPointsWeights, CLenMismatch) :: points_pre chk) true (DimDispatch [2; 3]%N CBadDimension) COk None
+            by_tag alg 2 [(0, PSame); (1, PSame)].
+Definition hilbert_entry (chk : bool) : centry :=
+  mk_centry true ((PLenPointsWeights, CLenMismatch) :: points_pre chk ++ [(PWeightsDouble, CBadType)]) true (DimFixed 2) COk
+            (Some CNotFound) (WFixed F64) "HilbertCurve" 2 [(0, PSame); (1, PSame)].
+Lemma ffi_rcb_eq : ffi_rcb = geo_entry (checks_points ffi_rcb) "Rcb".
 Proof. vm_compute. reflexivity. Qed.
-Lemma ffi_rib_eq : ffi_rib = geo_entry "Rib".
+Lemma ffi_rib_eq : ffi_rib = geo_entry (checks_points ffi_rib) "Rib".
 Proof. vm_compute. reflexivity. Qed.
-Lemma ffi_hilbert_eq :
-  ffi_hilbert = mk_centry true [(PLenPointsWeights, CLenMismatch); (PWeightsDouble, CBadType)] true (DimFixed 2) COk
-                  (Some CNotFound) (WFixed F64) "HilbertCurve" 2 [(0, PSame); (1, PSame)].
+Lemma ffi_hilbert_eq : ffi_hilbert = hilbert_entry (checks_points ffi_hilbert).
 Proof. vm_compute. reflexivity. Qed.
 Lemma ffi_fm_eq :
   ffi_fm = mk_centry true [(PAdjInt64, CBadType)] false DimNone COk None by_tag "FiducciaMattheyses" 4
@@ -306,9 +314,11 @@ Lemma agrees_ckk rust p0 ws tol s rest W :
 Proof. intros Hs Hd. unfold coupe_karmarkar_karp_complete. exact (num_agrees _ rust p0 ws tol s rest W F64 _ ffi_ckk_eq Hs Hd). Qed.
 
 (* rcb / rib: complete case analysis of a call whose output array is long enough *)
-Definition geo_expected (rust : nat -> list (list value) -> numty -> list value -> list (option N) -> list N -> res (list N))
+Definition geo_expected (chk : bool)
+           (rust : nat -> list (list value) -> numty -> list value -> list (option N) -> list N -> res (list N))
            (p0 : list N) (dim : N) (pts ws : data) (iter tol : N) (s rest : list N) : outcome :=
   if negb (Nat.eqb (dlen pts) (dlen ws)) then Returns CLenMismatch (Some p0)
+  else if chk && negb (ty_eqb (dtype pts) TDouble) then Returns CBadType (Some p0)
   else if existsb (N.eqb dim) [2; 3]%N then
     match denote_points (N.to_nat dim) pts, denote_scalars (tag_numty (dtype ws)) ws with
     | Some P, Some W => expected rest (rust (N.to_nat dim) P (tag_numty (dtype ws)) W [Some iter; Some tol] s)
@@ -316,38 +326,65 @@ Definition geo_expected (rust : nat -> list (list value) -> numty -> list value 
     end
   else Returns CBadDimension (Some p0).
 
-Lemma geo_dispatch_agrees alg rust p0 dim pts ws iter tol s rest :
+Lemma geo_dispatch_agrees chk alg rust p0 dim pts ws iter tol s rest :
   take_slice (dlen pts) p0 = Some (s, rest) ->
-  entry_geo ffi_arms ffi_crash (geo_entry alg) rust p0 dim pts ws [iter; tol]
-  = geo_expected rust p0 dim pts ws iter tol s rest.
+  entry_geo ffi_arms ffi_crash (geo_entry chk alg) rust p0 dim pts ws [iter; tol]
+  = geo_expected chk rust p0 dim pts ws iter tol s rest.
 Proof.
   intros Hs. unfold geo_expected, entry_geo, with_params, pre_then, geo_entry.
   cbn [List.length ce_arity Nat.eqb ce_params build_params map sequence nth_opt option_map conv_param
        ce_pre run_pre pre_fails px_len_mismatch ce_count_points ce_dim ce_guarded ce_w].
   destruct (negb (Nat.eqb (dlen pts) (dlen ws))); [reflexivity|].
-  rewrite Hs.
-  destruct (existsb (N.eqb dim) [2; 3]%N); [|reflexivity].
-  destruct (denote_points (N.to_nat dim) pts) as [P|]; [|reflexivity].
-  assert (Hn : numty_for by_tag (dtype ws) = tag_numty (dtype ws)) by (destruct (dtype ws); reflexivity).
-  rewrite Hn.
-  destruct (denote_scalars (tag_numty (dtype ws)) ws) as [W|]; [|reflexivity].
-  apply (result_of_expected _ rest); reflexivity.
+  assert (Hrest :
+    guard true ffi_crash
+      match take_slice (dlen pts) p0 with
+      | Some (s0, rest0) =>
+        if existsb (N.eqb dim) [2; 3]%N then
+          match denote_points (N.to_nat dim) pts with
+          | Some ps =>
+            match denote_scalars (numty_for by_tag (dtype ws)) ws with
+            | Some ws0 => finish ffi_arms (geo_entry chk alg) rest0 (rust (N.to_nat dim) ps (numty_for by_tag (dtype ws)) ws0 [Some iter; Some tol] s0)
+            | None => BUB
+            end
+          | None => BUB
+          end
+        else BRet CBadDimension (Some p0)
+      | None => BUB
+      end
+    = if existsb (N.eqb dim) [2; 3]%N then
+        match denote_points (N.to_nat dim) pts, denote_scalars (tag_numty (dtype ws)) ws with
+        | Some P, Some W => expected rest (rust (N.to_nat dim) P (tag_numty (dtype ws)) W [Some iter; Some tol] s)
+        | _, _ => UB
+        end
+      else Returns CBadDimension (Some p0)).
+  { rewrite Hs.
+    destruct (existsb (N.eqb dim) [2; 3]%N); [|reflexivity].
+    destruct (denote_points (N.to_nat dim) pts) as [P|]; [|reflexivity].
+    assert (Hn : numty_for by_tag (dtype ws) = tag_numty (dtype ws)) by (destruct (dtype ws); reflexivity).
+    rewrite Hn.
+    destruct (denote_scalars (tag_numty (dtype ws)) ws) as [W|]; [|reflexivity].
+    apply (result_of_expected _ rest); reflexivity. }
+  destruct chk; cbn [points_pre run_pre pre_fails px_points_not_double andb].
+  - destruct (negb (ty_eqb (dtype pts) TDouble)); [reflexivity|]. exact Hrest.
+  - exact Hrest.
 Qed.
 
 Lemma agrees_rcb rust p0 dim pts ws iter tol s rest :
   take_slice (dlen pts) p0 = Some (s, rest) ->
-  coupe_rcb rust p0 dim pts ws iter tol = geo_expected rust p0 dim pts ws iter tol s rest.
-Proof. intros Hs. unfold coupe_rcb. rewrite ffi_rcb_eq. apply geo_dispatch_agrees. exact Hs. Qed.
+  coupe_rcb rust p0 dim pts ws iter tol = geo_expected (checks_points ffi_rcb) rust p0 dim pts ws iter tol s rest.
+Proof. intros Hs. unfold coupe_rcb. rewrite ffi_rcb_eq at 1. apply geo_dispatch_agrees. exact Hs. Qed.
 
 Lemma agrees_rib rust p0 dim pts ws iter tol s rest :
   take_slice (dlen pts) p0 = Some (s, rest) ->
-  coupe_rib rust p0 dim pts ws iter tol = geo_expected rust p0 dim pts ws iter tol s rest.
-Proof. intros Hs. unfold coupe_rib. rewrite ffi_rib_eq. apply geo_dispatch_agrees. exact Hs. Qed.
+  coupe_rib rust p0 dim pts ws iter tol = geo_expected (checks_points ffi_rib) rust p0 dim pts ws iter tol s rest.
+Proof. intros Hs. unfold coupe_rib. rewrite ffi_rib_eq at 1. apply geo_dispatch_agrees. exact Hs. Qed.
 
 (* hilbert: length check, then the weights must be tagged double, then 2-D points / f64 weights *)
-Definition hilbert_expected (rust : nat -> list (list value) -> numty -> list value -> list (option N) -> list N -> res (list N))
+Definition hilbert_expected (chk : bool)
+           (rust : nat -> list (list value) -> numty -> list value -> list (option N) -> list N -> res (list N))
            (p0 : list N) (pts ws : data) (part_count order : N) (s rest : list N) : outcome :=
   if negb (Nat.eqb (dlen pts) (dlen ws)) then Returns CLenMismatch (Some p0)
+  else if chk && negb (ty_eqb (dtype pts) TDouble) then Returns CBadType (Some p0)
   else if negb (ty_eqb (dtype ws) TDouble) then Returns CBadType (Some p0)
   else
     match denote_points 2 pts, denote_scalars F64 ws with
@@ -355,19 +392,32 @@ Definition hilbert_expected (rust : nat -> list (list value) -> numty -> list va
     | _, _ => UB
     end.
 
+Lemma hilbert_agrees chk rust p0 pts ws part_count order s rest :
+  take_slice (dlen pts) p0 = Some (s, rest) ->
+  entry_geo ffi_arms ffi_crash (hilbert_entry chk) rust p0 2%N pts ws [part_count; order]
+  = hilbert_expected chk rust p0 pts ws part_count order s rest.
+Proof.
+  intros Hs. unfold hilbert_expected, entry_geo, with_params, pre_then, hilbert_entry.
+  cbn [List.length ce_arity Nat.eqb ce_params build_params map sequence nth_opt option_map conv_param
+       ce_pre run_pre pre_fails px_len_mismatch ce_count_points ce_dim ce_guarded ce_w numty_for].
+  destruct (negb (Nat.eqb (dlen pts) (dlen ws))); [reflexivity|].
+  destruct chk; cbn [points_pre app run_pre pre_fails px_points_not_double px_weights_not_double andb].
+  - destruct (negb (ty_eqb (dtype pts) TDouble)); [reflexivity|].
+    destruct (negb (ty_eqb (dtype ws) TDouble)); [reflexivity|].
+    rewrite Hs. destruct (denote_points 2 pts) as [P|]; [|reflexivity].
+    destruct (denote_scalars F64 ws) as [W|]; [|reflexivity].
+    destruct (rust 2%nat P F64 W [Some part_count; Some order] s); reflexivity.
+  - destruct (negb (ty_eqb (dtype ws) TDouble)); [reflexivity|].
+    rewrite Hs. destruct (denote_points 2 pts) as [P|]; [|reflexivity].
+    destruct (denote_scalars F64 ws) as [W|]; [|reflexivity].
+    destruct (rust 2%nat P F64 W [Some part_count; Some order] s); reflexivity.
+Qed.
+
 Lemma agrees_hilbert rust p0 pts ws part_count order s rest :
   take_slice (dlen pts) p0 = Some (s, rest) ->
-  coupe_hilbert rust p0 pts ws part_count order = hilbert_expected rust p0 pts ws part_count order s rest.
-Proof.
-  intros Hs. unfold coupe_hilbert, hilbert_expected, entry_geo, with_params, pre_then. rewrite ffi_hilbert_eq.
-  cbn [List.length ce_arity Nat.eqb ce_params build_params map sequence nth_opt option_map conv_param
-       ce_pre run_pre pre_fails px_len_mismatch px_weights_not_double ce_count_points ce_dim ce_guarded ce_w numty_for].
-  destruct (negb (Nat.eqb (dlen pts) (dlen ws))); [reflexivity|].
-  destruct (negb (ty_eqb (dtype ws) TDouble)); [reflexivity|].
-  rewrite Hs. destruct (denote_points 2 pts) as [P|]; [|reflexivity].
-  destruct (denote_scalars F64 ws) as [W|]; [|reflexivity].
-  destruct (rust 2%nat P F64 W [Some part_count; Some order] s); reflexivity.
-Qed.
+  coupe_hilbert rust p0 pts ws part_count order
+  = hilbert_expected (checks_points ffi_hilbert) rust p0 pts ws part_count order s rest.
+Proof. intros Hs. unfold coupe_hilbert. rewrite ffi_hilbert_eq at 1. apply hilbert_agrees. exact Hs. Qed.
 
 Definition fm_expected (rust : adjacency -> numty -> list value -> list (option N) -> list N -> res (list N))
            (p0 : list N) (adj : adjacency) (ws : data) (a b c d : N) (s rest : list N) : outcome :=
@@ -529,43 +579,30 @@ Lemma repr_indep_ckk rust p0 w1 w2 k :
 Proof.
   intros Hl Ht Hd. apply entry_num_repr_indep; assumption.
 Qed.
-(* rcb / rib: the points' Type tag plays no role at all (it is never read) *)
-Lemma geo_repr_indep alg rust p0 dim q1 q2 w1 w2 iter tol :
-  dlen q1 = dlen q2 -> (forall d, denote_points d q1 = denote_points d q2) ->
-  dlen w1 = dlen w2 -> dtype w1 = dtype w2 ->
-  denote_scalars (tag_numty (dtype w1)) w1 = denote_scalars (tag_numty (dtype w1)) w2 ->
-  entry_geo ffi_arms ffi_crash (geo_entry alg) rust p0 dim q1 w1 [iter; tol]
-  = entry_geo ffi_arms ffi_crash (geo_entry alg) rust p0 dim q2 w2 [iter; tol].
-Proof.
-  intros Hlq Hq Hl Ht Hd. unfold entry_geo, with_params, pre_then, geo_entry.
-  cbn [List.length ce_arity Nat.eqb ce_params build_params map sequence nth_opt option_map conv_param
-       ce_pre run_pre pre_fails px_len_mismatch ce_count_points ce_dim ce_guarded ce_w].
-  rewrite <- Hlq, <- Hl, <- Ht, (Hq (N.to_nat dim)).
-  assert (Hn : numty_for by_tag (dtype w1) = tag_numty (dtype w1)) by (destruct (dtype w1); reflexivity).
-  rewrite Hn, Hd. reflexivity.
-Qed.
 Lemma repr_indep_rcb rust p0 dim q1 q2 w1 w2 iter tol :
-  dlen q1 = dlen q2 -> (forall d, denote_points d q1 = denote_points d q2) ->
+  dlen q1 = dlen q2 -> dtype q1 = dtype q2 -> (forall d, denote_points d q1 = denote_points d q2) ->
   dlen w1 = dlen w2 -> dtype w1 = dtype w2 ->
   denote_scalars (tag_numty (dtype w1)) w1 = denote_scalars (tag_numty (dtype w1)) w2 ->
   coupe_rcb rust p0 dim q1 w1 iter tol = coupe_rcb rust p0 dim q2 w2 iter tol.
-Proof. unfold coupe_rcb. rewrite ffi_rcb_eq. apply geo_repr_indep. Qed.
+Proof.
+  intros Hlq Htq Hq Hl Ht Hd. apply entry_geo_repr_indep; assumption.
+Qed.
 Lemma repr_indep_rib rust p0 dim q1 q2 w1 w2 iter tol :
-  dlen q1 = dlen q2 -> (forall d, denote_points d q1 = denote_points d q2) ->
+  dlen q1 = dlen q2 -> dtype q1 = dtype q2 -> (forall d, denote_points d q1 = denote_points d q2) ->
   dlen w1 = dlen w2 -> dtype w1 = dtype w2 ->
   denote_scalars (tag_numty (dtype w1)) w1 = denote_scalars (tag_numty (dtype w1)) w2 ->
   coupe_rib rust p0 dim q1 w1 iter tol = coupe_rib rust p0 dim q2 w2 iter tol.
-Proof. unfold coupe_rib. rewrite ffi_rib_eq. apply geo_repr_indep. Qed.
+Proof.
+  intros Hlq Htq Hq Hl Ht Hd. apply entry_geo_repr_indep; assumption.
+Qed.
 Lemma repr_indep_hilbert rust p0 q1 q2 w1 w2 k o :
-  dlen q1 = dlen q2 -> denote_points 2 q1 = denote_points 2 q2 ->
+  dlen q1 = dlen q2 -> dtype q1 = dtype q2 -> denote_points 2 q1 = denote_points 2 q2 ->
   dlen w1 = dlen w2 -> dtype w1 = dtype w2 ->
   denote_scalars F64 w1 = denote_scalars F64 w2 ->
   coupe_hilbert rust p0 q1 w1 k o = coupe_hilbert rust p0 q2 w2 k o.
 Proof.
-  intros Hlq Hq Hl Ht Hd. unfold coupe_hilbert, entry_geo, with_params, pre_then. rewrite ffi_hilbert_eq.
-  cbn [List.length ce_arity Nat.eqb ce_params build_params map sequence nth_opt option_map conv_param
-       ce_pre run_pre pre_fails px_len_mismatch px_weights_not_double ce_count_points ce_dim ce_guarded ce_w numty_for].
-  rewrite <- Hlq, <- Hl, <- Ht, Hd, Hq. reflexivity.
+  intros Hlq Htq Hq Hl Ht Hd. unfold coupe_hilbert, entry_geo. rewrite ffi_hilbert_eq.
+  cbn [hilbert_entry ce_count_points ce_dim ce_w numty_for]. rewrite <- Hlq, <- Htq, <- Hl, <- Ht, Hd, Hq. reflexivity.
 Qed.
 Lemma repr_indep_fm rust p0 adj w1 w2 a b c d :
   dlen w1 = dlen w2 -> dtype w1 = dtype w2 ->
@@ -596,13 +633,13 @@ Lemma panic_contained :
      denote_scalars (tag_numty (dtype ws)) ws = Some W -> rust (tag_numty (dtype ws)) W [Some k] s = Panic site ->
      coupe_karmarkar_karp_complete rust p0 ws k = Returns CCrash None)
   /\ (forall rust p0 dim pts ws iter tol s rest P W site, take_slice (dlen pts) p0 = Some (s, rest) ->
-     dlen pts = dlen ws -> existsb (N.eqb dim) [2; 3]%N = true ->
+     dlen pts = dlen ws -> dtype pts = TDouble -> existsb (N.eqb dim) [2; 3]%N = true ->
      denote_points (N.to_nat dim) pts = Some P -> denote_scalars (tag_numty (dtype ws)) ws = Some W ->
      rust (N.to_nat dim) P (tag_numty (dtype ws)) W [Some iter; Some tol] s = Panic site ->
      coupe_rcb rust p0 dim pts ws iter tol = Returns CCrash None
      /\ coupe_rib rust p0 dim pts ws iter tol = Returns CCrash None)
   /\ (forall rust p0 pts ws k o s rest P W site, take_slice (dlen pts) p0 = Some (s, rest) ->
-     dlen pts = dlen ws -> dtype ws = TDouble ->
+     dlen pts = dlen ws -> dtype pts = TDouble -> dtype ws = TDouble ->
      denote_points 2 pts = Some P -> denote_scalars F64 ws = Some W ->
      rust 2 P F64 W [Some k; Some o] s = Panic site ->
      coupe_hilbert rust p0 pts ws k o = Returns CCrash None)
@@ -615,14 +652,14 @@ Proof.
   - intros rust p0 ws k s rest W site Hs Hd Hr. rewrite (agrees_greedy rust p0 ws k s rest W Hs Hd), Hr. reflexivity.
   - intros rust p0 ws k s rest W site Hs Hd Hr. rewrite (agrees_kk rust p0 ws k s rest W Hs Hd), Hr. reflexivity.
   - intros rust p0 ws k s rest W site Hs Hd Hr. rewrite (agrees_ckk rust p0 ws k s rest W Hs Hd), Hr. reflexivity.
-  - intros rust p0 dim pts ws iter tol s rest P W site Hs Hl Hdim HP HW Hr. split.
+  - intros rust p0 dim pts ws iter tol s rest P W site Hs Hl Htp Hdim HP HW Hr. split.
     + rewrite (agrees_rcb rust p0 dim pts ws iter tol s rest Hs). unfold geo_expected.
-      rewrite Hl, Nat.eqb_refl. cbn [negb]. rewrite Hdim, HP, HW, Hr. reflexivity.
+      rewrite Hl, Nat.eqb_refl, Htp. cbn [negb ty_eqb]. rewrite andb_false_r, Hdim, HP, HW, Hr. reflexivity.
     + rewrite (agrees_rib rust p0 dim pts ws iter tol s rest Hs). unfold geo_expected.
-      rewrite Hl, Nat.eqb_refl. cbn [negb]. rewrite Hdim, HP, HW, Hr. reflexivity.
-  - intros rust p0 pts ws k o s rest P W site Hs Hl Ht HP HW Hr.
+      rewrite Hl, Nat.eqb_refl, Htp. cbn [negb ty_eqb]. rewrite andb_false_r, Hdim, HP, HW, Hr. reflexivity.
+  - intros rust p0 pts ws k o s rest P W site Hs Hl Htp Ht HP HW Hr.
     rewrite (agrees_hilbert rust p0 pts ws k o s rest Hs). unfold hilbert_expected.
-    rewrite Hl, Nat.eqb_refl, Ht. cbn [negb ty_eqb]. rewrite HP, HW, Hr. reflexivity.
+    rewrite Hl, Nat.eqb_refl, Htp, Ht. cbn [negb ty_eqb]. rewrite andb_false_r, HP, HW, Hr. reflexivity.
   - intros rust p0 adj ws a b c d s rest W site Hs Ha HW Hr.
     rewrite (agrees_fm rust p0 adj ws a b c d s rest Hs). unfold fm_expected.
     rewrite Ha. cbn [negb ty_eqb]. rewrite HW, Hr. reflexivity.
